@@ -14,7 +14,7 @@ META = {
 }
 
 THEOREMS = ["C11.heap_order_restored", "C11.heap_ops_preserve_order", "C11.minimum_is_reported", "C11.heap_contents_preserved",
-            "C11.interleaving_is_two_heaps", "C11.reprogram_when_root_changes", "C11.missed_count_is_boundaries", "C11.count_never_exceeds_boundaries", "C11.oneshot_never_refires"]
+            "C11.interleaving_is_two_heaps", "C11.reprogram_when_root_changes", "C11.missed_count_is_boundaries", "C11.count_never_exceeds_boundaries", "C11.latched_firing_count_bounded", "C11.oneshot_never_refires"]
 
 
 def run(ctx):
@@ -58,10 +58,31 @@ def run(ctx):
         if k == 0 and target < 2 ** 62:  # not due (callers never do this; the code's arithmetic wraps): keep a few
             target = now + r.below(1000)
         lines.append("CM %d %d %d %d %d" % (target, deadline, interval, now, prev))
+    # _dispatch_source_timer_data: what the handler is told for a latched firing; the target may already have been advanced to a
+    # boundary that is still ahead (the timer fired while suspended and was resumed before the next boundary)
+    for _ in range(20000 if ctx.thorough else 3000):
+        now = r.choice([r.below(2 ** 62), 10 ** 9 + r.below(10 ** 12)])
+        interval = r.choice([1, 1000, 1 + r.below(10 ** 9), 1 + r.below(2 ** 40), 2 ** 63 - 1, 2 ** 64 - 1])
+        k = r.below(4)
+        if k == 0: target = now + 1 + r.below(min(interval, 10 ** 12))           # still ahead
+        elif k == 1: target = now                                                 # exactly due
+        elif k == 2: target = now - min(now, r.below(10 ** 10))                   # overdue
+        else: target = r.choice([2 ** 63 - 1, 2 ** 64 - 1, 2 ** 63])             # parked one-shot
+        prev = r.choice([1, 3, 2 * r.below(1000) + 1, 2 * r.below(1000)])         # latched count << 1 | DISARMED marker
+        lines.append("TD %d %d %d %d %d" % (target, min(2 ** 64 - 1, target + r.below(10 ** 6)), interval, now, prev))
     real, _, _ = run_lines(h, lines)
     if drv:
         model, _, _ = run_lines(drv, lines)
         diffs = ctx.diff_streams("L-fn compute_missed", lines, real, model)
+        # the property on the real results: never more firings than latched + interval boundaries passed
+        for l, rr in zip(lines, real):
+            f = l.split()
+            if f[0] != "TD": continue
+            t, iv, nw, pv = int(f[1]), int(f[3]), int(f[4]), int(f[5])
+            b = ((nw - t) // iv + 1) if (t <= nw and t < 2 ** 63 - 1) else 0
+            if int(rr.split()[0]) > pv // 2 + b:
+                ctx.violation("timer data: %s firings reported, %d latched and %d interval boundaries passed, on input `%s`" % (rr.split()[0], pv // 2, b, l), {"line": l, "real": rr, "harness": "harness/lfn.c"}, signature="timers:data-exceeds-boundaries")
+                break
         for l, rr, m in diffs[:3]:
             ctx.broken("L-fn correspondence compute_missed (input `%s`: real %s, model %s)" % (l, rr, m))
     # 3. timing oracle on the real library
